@@ -145,6 +145,8 @@ def monitor_parse(ctx, fn, s, out, documented=None):
     """The property statement on one call.  `documented` = value promised by the docs when the string was
     generated as a documented spelling (then acceptance with that value is demanded), else None."""
     case = {"fn": fn, "s": s}
+    if documented is not None:
+        case["documented"] = list(documented)     # so that a replay demands the same
     if out.startswith(("EXC:", "nonint:")):
         ctx.violation("%s(%r): neither an int nor a ValueError/KeyError: %s" % (fn, s, out), case, fn + "-unexpected-outcome", out)
         return
@@ -410,19 +412,21 @@ def scan_code_points(ctx, cps):
     res = ctx.model(uniq)
     table = dict(zip(uniq, res)) if res is not None else None
     n = 0
+    tmpl = []
+    for fn, t in SCAN_TEMPLATES:
+        toks = [None if c is None else sym_of(c) for c in _split(t)]
+        k = toks.index(None)
+        tmpl.append((fn, t, " ".join([fn] + toks[:k]) + " ", "".join(" " + x for x in toks[k + 1:])))
     for cp in cps:
         ch = chr(cp)
-        for fn, t in SCAN_TEMPLATES:
+        tok = sym_of(ch)
+        for fn, t, pre, post in tmpl:
             s = t % ch
             out = impl_call(fn, s)
             if out[0] not in "VK":      # anything but a plain ValueError / KeyError goes to the monitor
                 monitor_parse(ctx, fn, s, out, None)
-            if table is not None:
-                mo = table.get(line_of(fn, s))
-                if mo is None:      # a digit/space that str.isdecimal/isspace classify as ASCII class but outside the table: cannot happen
-                    mo = ctx.model([line_of(fn, s)])[0]
-                if mo != out:
-                    ctx.disagree("code-point scan: chr(0x%x) in %r" % (cp, t), {"fn": fn, "s": s}, out, mo)
+            if table is not None and table[pre + tok + post] != out:
+                ctx.disagree("code-point scan: chr(0x%x) in %r" % (cp, t), {"fn": fn, "s": s}, out, table[pre + tok + post])
             n += 1
     ctx.case(None, n)
     ctx.count("code-point-scan-calls", n)
@@ -444,7 +448,8 @@ def run(ctx):
         if c["fn"] in ("rt", "abbr"):
             eval_roundtrips(ctx, [(bool(c["si"]), int(c["n"]))])
         else:
-            eval_parse_cases(ctx, [(c["fn"], c["s"], None)], "replayed call")
+            doc = c.get("documented")
+            eval_parse_cases(ctx, [(c["fn"], c["s"], (doc[0], int(doc[1])) if doc else None)], "replayed call")
         return
     rng = ctx.rng
     # 1. fixed corpus: doc examples and past failures
